@@ -2,4 +2,4 @@
 # usage: tools/isobatch.sh <parallelism> <file with lines: slot patch check...>   — run isotest jobs from a list, N at a time
 N=$1; LIST=$2
 mkdir -p /verif/.build/iso
-cat $LIST | xargs -P $N -L 1 sh -c 'slot=$0; /verif/tools/isotest.sh "$@" > /verif/.build/iso/$slot.log 2>&1' 
+cat $LIST | xargs -P $N -L 1 sh -c 'slot=$0; /verif/tools/isotest.sh "$0" "$@" > /verif/.build/iso/$slot.log 2>&1' 
